@@ -22,8 +22,8 @@ logging.disable(logging.CRITICAL)
 
 MODEL = 'tags_tlv'
 COQ = {
-    'C01': dict(gen=['TlvK'], targets=['Proofs/T2TWrite.vo', 'Proofs/T1T.vo', 'Bridge/TlvK.vo'], props=['C01_tlv']),
-    'C02': dict(gen=[], targets=['Proofs/T2TCut.vo', 'Proofs/T1T.vo'], props=['C02_tlv']),
+    'C01': dict(gen=['TlvK'], targets=['Proofs/T2TWrite.vo', 'Proofs/T2TRetry.vo', 'Proofs/T1T.vo', 'Proofs/T1TRetry.vo', 'Bridge/TlvK.vo'], props=['C01_tlv']),
+    'C02': dict(gen=[], targets=['Proofs/T2TCut.vo', 'Proofs/T2TRetry.vo', 'Proofs/T1T.vo', 'Proofs/T1TRetry.vo'], props=['C02_tlv']),
     'C03': dict(gen=[], targets=['Proofs/T2TFrame.vo', 'Proofs/T1T.vo'], props=['C03_tlv']),
 }
 TRUSTED = ['Coq 8.16.1 kernel (vm_compute only in the non-vacuity examples and refutation witnesses)',
@@ -618,9 +618,10 @@ def cut_case(ck, bt, L, old, new, rng, sample_real, prepared=False):
 
 
 FAULT_KINDS = [nfc.clf.TimeoutError, nfc.clf.TransmissionError, nfc.clf.ProtocolError]
+RETRY_MODELLED = ('t2', 't1s', 't1d')      # tag kinds whose reader state across operations is in the Coq model
 
 
-def retry_case(ck, L, old, new, k1, kind, executed, pid, rng, sample_real=1):
+def retry_case(ck, L, old, new, k1, kind, executed, pid, rng, sample_real=1, bt=None):
     """two operations on the SAME tag object: tag.ndef.octets = new fails at its k1-th state-changing command
     with a transient fault (lost command, or executed with the response lost; the tag answers again
     afterwards), then the same assignment is retried and the tag leaves the field after k2 commands of
@@ -648,10 +649,12 @@ def retry_case(ck, L, old, new, k1, kind, executed, pid, rng, sample_real=1):
         clf._fault = None
         n1 = len(sim.log)
         m1 = bytes(sim.mem)
+        rdr = tag.ndef._tag_memory
+        reader = (bytes(rdr._data_from_tag), bytes(rdr._data_in_cache))
         if cut2 is not None:
             sim.cut_after = n1 + cut2
         r2 = classify(op) if r1 != 'ok' else 'ok'
-        return dict(r1=r1, r2=r2, n1=n1, m1=m1, sim=sim)
+        return dict(r1=r1, r2=r2, n1=n1, m1=m1, sim=sim, reader=reader)
 
     h = history(None)
     if h is None or h['r1'] == 'ok':       # k1 beyond the last command: nothing failed
@@ -673,8 +676,10 @@ def retry_case(ck, L, old, new, k1, kind, executed, pid, rng, sample_real=1):
     ll = 'short' if len(new) < 255 else 'long-oneunit' if one_unit else 'long-straddle'
     ex = 'executed' if executed else 'lost'
     reported = False
+    views = []
     for k in range(n2 + 1):
         fr, _fcap, foct = fresh_view(L2, mems[k])
+        views.append(fr)
         ck.case((L.kind, 'retry', hx(mem), hx(new), k1, kind.__name__, executed, k), True,
                 {'tag': L.kind, 'history': 'write fails at command %d (%s, %s), retry cut after %d of %d' % (k1, kind.__name__, ex, k, n2),
                  'fresh': fr[:24]} if k == 1 else None)
@@ -690,12 +695,88 @@ def retry_case(ck, L, old, new, k1, kind, executed, pid, rng, sample_real=1):
         ck.violation('%s:retry:%s:%s' % (L.kind, 'fails' if h['r2'] != 'ok' else 'readback', ex),
                      'the retry of an assignment that failed transiently at command %d (%s) %s' % (
                          k1, ex, 'fails with ' + h['r2'] if h['r2'] != 'ok' else 'does not read back'), dict(case, result=h['r2'], fresh=fr[:120]))
+    if bt is not None and L.kind in RETRY_MODELLED and pure(sim):
+        # tie: tag memory and the reader's (data_from_tag, data_in_cache) after the failed attempt, result, commands and
+        # fresh views of the retry against the extracted model; the real reader holds a loaded prefix of the image
+        frm, cch = h['reader']
+        impl = ' | '.join([hx(h['m1']), hx(frm), hx(cch), h['r2'], show_cmds(log2), ';'.join(views)])
+        nfrm = len(frm)
+
+        def mask(line, nfrm=nfrm):
+            w = line.split(' | ')
+            if len(w) != 6:
+                return line
+            w[1], w[2] = w[1][:2 * nfrm], w[2][:2 * nfrm]
+            return ' | '.join(w)
+        bt.add('%s_retry %s %s %d %s' % (MODEL_PREFIX[L.kind], model_args(L2), hexarg(new), k1, 'unanswered' if executed else 'lost'),
+               impl, L.kind + '-retry', case, mask=mask)
     ck.count('%s-retry-histories' % L.kind)
     ck.count('%s-retry-cut-points' % L.kind, n2 + 1)
     return True
 
 
-def retry_cases(ck, L, old, new, pid, rng, extra):
+def rewrite_case(ck, L, old, d1, k1, kind, executed, d2, pid, rng, bt=None):
+    """two DIFFERENT assignments on one tag object: tag.ndef.octets = d1 fails at its k1-th command, then the application
+    assigns d2; the second write is cut at every k2.  For the second write the previous message is whatever the first
+    attempt left on the tag (old, empty or d1).  Correspondence with the model + monitor old | empty | new."""
+    if L.kind == 't1d' and max(len(d1), len(d2)) >= 255 and (L.off + 1) // L.unit != (L.off + 3) // L.unit:
+        return False    # the open Type 1 length-commit finding is not re-counted here
+    mem = bytearray(L.mem)
+    L2 = Layout()
+    L2.__dict__.update(L.__dict__)
+    L2.mem = mem
+    L2.put_message(mem, old)
+    case = {'layout': L2.describe(), 'old': hx(old), 'new': hx(d2), 'rewrite': {'d1': hx(d1), 'k1': k1, 'kind': kind.__name__, 'executed': executed}}
+    sim = L2.sim()
+    clf = FakeClf(sim)
+    tag = activate(clf)
+    if tag.ndef is None:
+        return False
+    clf.fault(k1, kind, executed)
+
+    def op1():
+        tag.ndef.octets = d1
+
+    def op2():
+        tag.ndef.octets = d2
+    r1 = classify(op1)
+    clf._fault = None
+    if r1 == 'ok':
+        return False
+    n1 = len(sim.log)
+    m1 = bytes(sim.mem)
+    prev = fresh_view(L2, m1)
+    r2 = classify(op2)
+    log2 = sim.log[n1:]
+    mems = [m1]
+    cur = bytearray(m1)
+    for addr, _o, _req, res in log2:
+        cur[addr:addr + len(res)] = res
+        mems.append(bytes(cur))
+    n_first = len(run_write_on(L, old, d1))
+    phase = 'commit' if k1 == n_first else 'zero' if k1 == 1 else 'data'
+    ex = 'unanswered' if executed else 'lost'
+    views, reported = [], False
+    for k in range(len(mems)):
+        fr, _c, foct = fresh_view(L2, mems[k])
+        views.append(fr)
+        ck.case((L.kind, 'rewrite', hx(mem), hx(d1), hx(d2), k1, executed, k), True, None)
+        ok = fr in ('nondef', 'notreadable', 'msg -') or fr == prev[0] or foct == d2 or fr.startswith('failed err')
+        if not ok and not reported and pid == 'C02':
+            reported = True
+            ck.violation('%s:rewrite-cut:%s-%s:mixture' % (L.kind, phase, ex),
+                         'an assignment failed at command %d (%s, %s); a second assignment with other data on the same tag object, cut after %d of %d '
+                         'commands, leaves a %d byte message that is neither what the tag held before it (%s...) nor the new data' % (
+                             k1, phase, ex, k, len(log2), len(foct), prev[0][:20]), dict(case, cut_after=k, fresh=fr[:120]))
+    if bt is not None and pure(sim):
+        impl = ' | '.join([hx(m1), r2, show_cmds(log2), ';'.join(views)])
+        bt.add('%s_rewrite %s %s %d %s %s' % (MODEL_PREFIX[L.kind], model_args(L2), hexarg(d1), k1, 'unanswered' if executed else 'lost', hexarg(d2)),
+               impl, L.kind + '-rewrite', case)
+    ck.count('%s-rewrite-histories' % L.kind)
+    return True
+
+
+def retry_cases(ck, L, old, new, pid, rng, extra, bt=None):
     """k1 = 1 with every error kind and both fates of the command, plus a few other k1"""
     n = len(run_write_on(L, old, new))
     todo = [(1, FAULT_KINDS[0], False), (1, FAULT_KINDS[1], True), (1, FAULT_KINDS[2], False), (1, FAULT_KINDS[0], True)]
@@ -706,7 +787,13 @@ def retry_cases(ck, L, old, new, pid, rng, extra):
         return      # the open Type 1 finding of findings/C02.json (length commit across two blocks) is not re-counted here
     for k1, kind, executed in todo:
         if k1 <= n:
-            retry_case(ck, L, old, new, k1, kind, executed, pid, rng)
+            retry_case(ck, L, old, new, k1, kind, executed, pid, rng, bt=bt)
+    if pid == 'C02' and n:
+        # a different second assignment after the failed one: first / a middle / the last (commit) command, both fates
+        d2 = rnd(rng, rng.choice([len(new), len(new), max(0, len(new) - 3), min(L.cap_expected, len(new) + 5)]))
+        for k1 in sorted(set([1, n, rng.randrange(1, n + 1)])):
+            for executed in (False, True):
+                rewrite_case(ck, L, old, new, k1, rng.choice(FAULT_KINDS), executed, d2, pid, rng, bt=bt)
 
 
 def run_write_on(L, old, new):
@@ -751,7 +838,7 @@ def corpus(ck, bt, pid, rng):
     L.mem = bytearray(bytes([1, 2, 3, 4, 5, 6, 7, 0, 0xE1, 0x10, 0x0E, 0]) + bytes([3, 0]) + bytes(106))
     L.cap_expected = 90
     if pid in ('C01', 'C02'):
-        retry_cases(ck, L, bytes(range(1, 46)), bytes(range(100, 112)), pid, rng, 1)
+        retry_cases(ck, L, bytes(range(1, 46)), bytes(range(100, 112)), pid, rng, 1, bt=bt)
     # dynamic memory with HR0 = 14h (not Topaz-512), message stored past byte 127 (seeded regression C01-b4)
     L = Layout()
     L.kind, L.first, L.unit, L.off, L.dend, L.oneway, L.hr = 't1d', 12, 8, 13, 512, set(), bytes([0x14, 0x00])
@@ -800,10 +887,14 @@ def replay(ck, pid, mr, path):
         return False
     L = Layout.from_desc(case['layout'])
     bt = Batch(ck, mr)
-    if 'retry' in case:
+    if 'rewrite' in case:
+        r = case['rewrite']
+        kind = [k for k in FAULT_KINDS if k.__name__ == r['kind']][0]
+        rewrite_case(ck, L, bytes.fromhex(case['old']), bytes.fromhex(r['d1']), r['k1'], kind, r['executed'], bytes.fromhex(case['new']), pid, ck.rng, bt=bt)
+    elif 'retry' in case:
         r = case['retry']
         kind = [k for k in FAULT_KINDS if k.__name__ == r['kind']][0]
-        retry_case(ck, L, bytes.fromhex(case['old']), bytes.fromhex(case['new']), r['k1'], kind, r['executed'], pid, ck.rng)
+        retry_case(ck, L, bytes.fromhex(case['old']), bytes.fromhex(case['new']), r['k1'], kind, r['executed'], pid, ck.rng, bt=bt)
     elif 'new' in case:
         # the layout recorded for a cut case already holds the old message
         cut_case(ck, bt, L, bytes.fromhex(case['old']), bytes.fromhex(case['new']), ck.rng, 2, prepared=True)
@@ -881,7 +972,8 @@ def run(ck, pid, mr):
                 cands = [x for x in [0, 1, 40, 254, 255, 300] if x <= L.cap_expected] + [rng.randrange(0, L.cap_expected + 1)]
                 old = rnd(rng, rng.choice(cands[1:]))
                 new = rnd(rng, rng.choice([c for c in cands if c <= 320]))
-                retry_cases(ck, L, old, new, pid, rng, 1 if quick else 3)
+                retry_cases(ck, L, old, new, pid, rng, 1 if quick else 3, bt=bt)
+                bt.flush()
         if pid == 'C02':
             npairs = 150 if quick else 2500
             grid = [0, 1, 40, 253, 254, 255, 256, 300]
